@@ -24,6 +24,7 @@ import (
 	"sort"
 	"strings"
 	"sync"
+	"sync/atomic"
 	"time"
 )
 
@@ -141,7 +142,20 @@ type World struct {
 // that is about to lock it).  The cluster simulator uses it to hold a connection handler at a lock
 // for a while: the one place where a free-running goroutine of the server can be delayed between two
 // of its steps.
-var FreeLockHook func(obj interface{})
+var freeLockHook atomic.Value // of lockHook
+
+type lockHook struct{ f func(obj interface{}) }
+
+// SetFreeLockHook installs (or, with nil, removes) the hook.
+func SetFreeLockHook(f func(obj interface{})) { freeLockHook.Store(lockHook{f}) }
+
+// FreeLockHook returns the installed hook or nil.
+func FreeLockHook() func(obj interface{}) {
+	if h, ok := freeLockHook.Load().(lockHook); ok {
+		return h.f
+	}
+	return nil
+}
 
 // W is the current world.  One world is live at a time per process.
 var W *World
